@@ -62,9 +62,9 @@ def rich_outcome(f):
     try:
         r = f()
     except ScannerException as e:
-        return ('err', 1, getattr(e, 'pos', None))
+        return ('err', 1, getattr(e, 'pos', None), type(e).__name__)
     except TokenScannerException as e:
-        return ('err', 2, getattr(e, 'pos', None))
+        return ('err', 2, getattr(e, 'pos', None), type(e).__name__)
     except Exception as e:
         return ('internal', type(e).__name__)
     return ('ok', r)
@@ -101,3 +101,85 @@ def agree(impl, model):
     if impl[0] == 'internal':
         return model[0] == 'internal'
     return False
+
+
+# ------------------------------------------------------------------ in-Coq evaluation (full model, stylesheet branch)
+def _cs(s):
+    return '(@nil N)' if s == '' else '[' + '; '.join('%d' % ord(c) for c in s) + ']%N'
+
+
+def _copt(s):
+    return 'None' if s is None else '(Some %s)' % _cs(s)
+
+
+def _cdict(ids, d):
+    return '[' + '; '.join('(%s, (%d)%%Z)' % (_cs(k), ids.id_of(v)) for k, v in d.items()) + ']'
+
+
+def _clayer(ids, layer):
+    return '[' + '; '.join('(%s, %s)' % (_cs(k), _cdict(ids, v)) for k, v in _sections(layer)) + ']'
+
+
+def coq_case(tb, case, abbr):
+    ids = XIds(tb.ids, tb.cfg)
+    user = _clayer(ids, case['user'])
+    glob_ = '[' + '; '.join('(%s, %s)' % (_cs(k), _clayer(ids, v)) for k, v in case['global'].items()) + ']'
+    patches = '[' + '; '.join('{| p_tag := (%d)%%Z; p_name := %s; p_sec := %s; p_key := %s; p_val := (%d)%%Z |}'
+                              % (p[0], _cs(p[1]), _cs(p[2]), _cs(p[3]), ids.id_of(p[4])) for p in case['patches']) + ']'
+    other = '[' + '; '.join('(%s, (%d)%%Z)' % (_cs(k), ids.id_of(v)) for k, v in other_entries(case['user'])) + ']'
+    extra = '[' + '; '.join('((%d)%%Z, %s)' % (i, cv.coq_cval(c)) for i, c in sorted(ids.extra.items(), reverse=True)) + ']'
+    return '(mkXcase %s %s %s %s %s %s %s %s)' % (_copt(case['type']), _copt(case['syntax']), user, glob_, patches,
+                                                   extra, other, _cs(abbr))
+
+
+SHOW_HEADER = ('From Coq Require Import PrimFloat List ZArith NArith.\n'
+               'From Emmet Require Import lib.Base lib.ConfigLib lib.ConfigVal run.ConfigRun run.CfgexpandShow.\n'
+               'Import ListNotations.\n')
+
+
+def coq_eval(terms, tag, shard=3, timeout=900):
+    """Evaluate eval_case on the given Coq terms (shards of `shard` cases, all cores).  -> list of decoded
+    results (None where the evaluation failed)."""
+    import os
+    import subprocess
+    import common
+    import style_util as su
+    if not terms:
+        return []
+    d = os.path.join(common.BUILD, '%s-%d' % (tag, os.getpid()))
+    os.makedirs(d, exist_ok=True)
+    for fn in os.listdir(d):
+        os.remove(os.path.join(d, fn))
+    shards = [terms[i:i + shard] for i in range(0, len(terms), shard)]
+    for si, sh in enumerate(shards):
+        with open(os.path.join(d, 'cases_%d.v' % si), 'w') as f:
+            f.write(SHOW_HEADER + 'Eval vm_compute in (eval_cases [\n' + ';\n'.join(sh) + ']).\n')
+    cmd = ('ls cases_*.v | xargs -P%d -I{} sh -c \'timeout %d coqc -Q "%s" Emmet {} > {}.out 2>&1 || echo FAIL {}\''
+           % (common.NPROC, timeout, common.COQ))
+    subprocess.run(cmd, shell=True, cwd=d, stdout=subprocess.PIPE, stderr=subprocess.STDOUT, text=True)
+    res = []
+    for si, sh in enumerate(shards):
+        try:
+            with open(os.path.join(d, 'cases_%d.v.out' % si)) as f:
+                lists = su.parse_coq_lists(f.read())
+        except Exception:
+            lists = []
+        if len(lists) != len(sh):
+            res += [None] * len(sh)
+        else:
+            res += [decode_show(w) for w in lists]
+    return res
+
+
+def decode_show(w):
+    if not w:
+        return None
+    if w[0] == 8:
+        return ('outside',)
+    if w[0] == 0:
+        return ('ok', ''.join(chr(c) for c in w[1:]))
+    if w[0] == 1:
+        return ('err', w[1], w[3] if w[2] else None)
+    if w[0] == 2:
+        return ('internal', w[1])
+    return ('fuel',)
